@@ -184,3 +184,20 @@ CHECKS["C20"] = {
          "checks_quick": 12, "checks_thorough": 120, "shards_quick": 8, "shards_thorough": 16, "timeout_quick": 300, "timeout_thorough": 1800},
     ],
 }
+
+CHECKS["C18"] = {
+    "level": "exploration",
+    "technique": "property-based testing of read-then-mutate/churn sequences with a snapshot-stability oracle (rapid)",
+    "level_text": ("Generated sequences on real in-process clusters with 256 B-1 KB tables: Put, reads through Get().Byte(), Get().String() and GetPut via the embedded client on the owner (the path without a network copy), "
+                   "on another member and through the cluster client; then overwrites of different length, deletes, churn that recycles storage tables, compaction, Destroy; the harness mutates returned slices in place and scribbles over the buffer it passed to Put. "
+                   "After every step every value handed out earlier must equal the private copy taken when it was returned, and a fresh Get of every key through two paths must return the model value. The engine contract of kvstore.Get is checked the same way in package kvstore."),
+    "level_note": "trusted: the harness' private copies; migration to another member is exercised in C03/C17, not here",
+    "rule": ("snapshots: non-trivial = a returned slice was mutated, or an overwrite/delete followed a read taken through the owner's embedded client. engine: non-trivial = returned slices mutated or >= 200 churn writes (tables recycled). distinct = distinct case hash"),
+    "assumptions": ["single-threaded sequences; the concurrent variant under -race is a diagnostic only and not part of the check"],
+    "parts": [
+        {"name": "snapshots", "pkg": ROOT, "test": "TestVerifC18", "kind": "rapid",
+         "checks_quick": 60, "checks_thorough": 1500, "shards_quick": 8, "shards_thorough": 16, "timeout_quick": 300, "timeout_thorough": 1800},
+        {"name": "engine", "pkg": KV, "test": "TestVerifC18Engine", "kind": "rapid",
+         "checks_quick": 500, "checks_thorough": 20000, "shards_quick": 4, "shards_thorough": 16, "timeout_quick": 300, "timeout_thorough": 1800},
+    ],
+}
